@@ -325,6 +325,62 @@ def run(ctx):
     for kind in ("record", "alias", "union-alias", "nested"):
         generic_second_instantiation(kind)
 
+    # single-edit neighbours that keep every name: the same namespace, protocol and type names in two packages that differ in one encoding-relevant
+    # detail; documented (comment-carrying) and undocumented definitions alike. Nothing but the detail itself tells the two schemas apart.
+    def same_name_neighbours():
+        from vlib.model import A as Arr      # `A` is a protocol in this function's enclosing scope
+        def mk(tag, **o):
+            doc = o.get("doc", True)
+            level = En("Level", o.get("level_values", [("lo", 0), ("hi", 1)]), o.get("level_base", "uint8"), False, True, "how strong" if doc else None)
+            plain = En("Plain", [("p", 0), ("q", 1)], o.get("plain_base", None), False, True, None)
+            perm = En("Perm", [("r", 1), ("w", 2)], o.get("perm_base", "uint16"), True, True, "access bits" if doc else None)
+            ident = Al("Ident", P(o.get("ident", "uint32")), (), "an identifier" if doc else None)
+            box = Rec("Box", [("content", TP("T")), ("n", P(o.get("box_n", "int32")))], ("T",))
+            samp = Rec("Sample", o.get("sample_fields", [("id", N("Ident")), ("level", N("Level")), ("note", Opt(P("string"))), ("w", P("float32"))]), (), [], "one sample" if doc else None)
+            if doc:
+                samp.field_comments = {"id": "who", "level": "how"}
+            proto = Proto("Flow", o.get("steps", [("first", N("Sample")), ("perm", N("Perm")), ("plain", N("Plain")), ("items", S(N("Sample"))), ("grid", o.get("grid", Arr(P("int16"), ((None, 2), (None, 3))))),
+                                                  ("pairs", M(P(o.get("key", "string")), N("Box", (N("Level"),)))), ("choice", U(o.get("choice", ((None, P("int32")), (None, P("string")))))), ("tail", V(N("Ident"), o.get("tail_len")))]))
+            if doc:
+                proto.comment = "the flow"
+                proto.step_comments = {"first": "first sample"}
+            return Pkg("Same", [level, plain, perm, ident, box, samp, proto], [], [], "same_" + tag)
+        base = mk("base")
+        edits = [("doc-enum-base", dict(level_base="int32")), ("doc-enum-base-wide", dict(level_base="uint64")), ("doc-flags-base", dict(perm_base="uint8")), ("plain-enum-base", dict(plain_base="uint8")),
+                 ("doc-enum-value", dict(level_values=[("lo", 0), ("hi", 2)])), ("doc-alias-target", dict(ident="uint64")), ("generic-field", dict(box_n="int64")),
+                 ("field-optional", dict(sample_fields=[("id", N("Ident")), ("level", N("Level")), ("note", P("string")), ("w", P("float32"))])),
+                 ("field-order", dict(sample_fields=[("level", N("Level")), ("id", N("Ident")), ("note", Opt(P("string"))), ("w", P("float32"))])),
+                 ("array-shape", dict(grid=Arr(P("int16"), ((None, 3), (None, 2))))), ("array-rank", dict(grid=Arr(P("int16"), 2))), ("map-key", dict(key="uint8")),
+                 ("union-order", dict(choice=((None, P("string")), (None, P("int32"))))), ("vector-fixed", dict(tail_len=2)),
+                 ("undocumented-enum-base", dict(doc=False, level_base="int32"))]
+        if quick:
+            edits = [e for i, e in enumerate(edits) if i in (0, 2, 3, 5, 8, 10, 14)]
+        ma = rt.prepare_model(ctx, "samename_base", base, [], langs=("python",))
+        mu = rt.prepare_model(ctx, "samename_base_undoc", mk("baseundoc", doc=False), [], langs=("python",))
+        if ma is None or mu is None:
+            raise Inconclusive("same-name base model did not generate")
+        for tag, o in edits:
+            src = mu if o.get("doc") is False else ma
+            pb = mk(tag.replace("-", "_"), **o)
+            mb = rt.prepare_model(ctx, "samename_" + tag.replace("-", "_"), pb, ["plain"] if tag in ("doc-enum-base", "field-order") else [], langs=("python", "cpp") if tag in ("doc-enum-base", "field-order") else ("python",))
+            if mb is None:
+                raise Inconclusive("same-name neighbour %s did not generate" % tag)
+            for direction, (mw, mr) in (("base->edited", (src, mb)), ("edited->base", (mb, src))):
+                pw = mw.pkg.find("Flow")
+                vals = values.ValueGen(mw.codec, rng("C15sn", tag, direction), json_safe=True).steps(pw, stream_len=2)
+                for fmt, data in (("bin", mw.codec.encode_stream(pw, mw.schema("Flow"), vals)), ("ndjson", ("\n".join(mw.codec.ndjson_lines(pw, mw.schema("Flow"), vals)) + "\n").encode())):
+                    eps = [rt.PyEndpoint(mr)] + ([rt.CppEndpoint(mr, "plain")] if mr is mb and tag in ("doc-enum-base", "field-order") else [])
+                    for ep in eps:
+                        r = ep.copy("Flow", fmt, "ndjson", data)
+                        ctx.ev()
+                        ctx.count("same-name-neighbour")
+                        ctx.case(("same-name-neighbour", tag, direction, fmt, ep.name))
+                        refused(ctx, mr, r, ep.name, "ndjson", "two packages with the same names that differ only in `%s` (%s): the reader of one fed a %s stream of the other" % (tag, direction, fmt),
+                                {"class": "same-name-neighbour:" + tag, "fmt": fmt, "direction": direction})
+            mb.close()
+        ma.close(); mu.close()
+    same_name_neighbours()
+
     # unrelated protocols of corpus models
     def corpus_pairs(key):
         pkg2 = corpus.ser_package(key, depth=2)
